@@ -1116,75 +1116,78 @@ func vfC14GitPart(t *testing.T, r *vfRand, n int, tmp string) {
 	}
 }
 
-// vfC14DeepPart: one branch whose tree is one directory level deeper than go-git's walker accepts (maxTreeDepth = 1024).
-// IndexGitRepo must come back (with the two documents, or with an error — the current code refuses more than 1024 nested
-// directories); it is run under a watchdog because up to /repo 8664339 it did not return.
+// vfC14DeepPart: one branch with 1024 nested directories (the deepest tree CollectFiles accepts: both files must be indexed)
+// and one with 1025 (refused with an error by the current code; IndexGitRepo must come back — with the two documents or
+// with an error).  Run under a watchdog because up to /repo 8664339 the second one did not return.
 func vfC14DeepPart(t *testing.T, tmp string) {
-	const depth = 1025
-	caseDir, err := os.MkdirTemp(tmp, "c14d-")
-	if err != nil {
-		t.Fatal(err)
-	}
-	defer os.RemoveAll(caseDir)
-	repo := filepath.Join(caseDir, "repo")
-	os.MkdirAll(repo, 0o755)
-	vfC14Git(t, repo, nil, nil, "init", "-q", "-b", "main", ".")
-	fn := filepath.Join(caseDir, "blob")
-	os.WriteFile(fn, []byte("deep content\n"), 0o644)
-	sha := strings.TrimSpace(vfC14Git(t, repo, []byte(fn+"\n"), nil, "hash-object", "-w", "--stdin-paths"))
-	deep := strings.Repeat("d/", depth) + "f.txt"
-	idx := filepath.Join(caseDir, "index-tmp")
-	env := []string{"GIT_INDEX_FILE=" + idx}
-	vfC14Git(t, repo, []byte(fmt.Sprintf("100644 %s\t%s\x00100644 %s\ttop.txt\x00", sha, deep, sha)), env, "update-index", "-z", "--index-info")
-	tree := strings.TrimSpace(vfC14Git(t, repo, nil, env, "write-tree"))
-	commit := strings.TrimSpace(vfC14Git(t, repo, []byte("c\n"), nil, "commit-tree", tree))
-	vfC14Git(t, repo, nil, nil, "update-ref", "refs/heads/main", commit)
-	indexDir := filepath.Join(caseDir, "idx")
-	os.MkdirAll(indexDir, 0o755)
-	t.Setenv("ZOEKT_DISABLE_CATFILE_BATCH", "true")
-	opts := Options{RepoDir: repo, Branches: []string{"main"}, BranchPrefix: "refs/heads",
-		BuildOptions: index.Options{IndexDir: indexDir, SizeMax: 1000, DisableCTags: true, RepositoryDescription: zoekt.Repository{Name: "repo"}}}
-	replay := map[string]any{"nested_directories": depth, "paths": []string{"d/ x 1025 + f.txt", "top.txt"},
-		"how": "one branch with the files top.txt and d/d/.../d/f.txt (1025 directory levels), built with update-index --index-info / write-tree / commit-tree; IndexGitRepo(Options{RepoDir, Branches: [main], BranchPrefix: refs/heads}) with ZOEKT_DISABLE_CATFILE_BATCH=true"}
-	type res struct {
-		err  error
-		docs []vfC14Doc
-	}
-	done := make(chan res, 1)
-	go func() {
-		defer func() {
-			if p := recover(); p != nil {
-				done <- res{err: fmt.Errorf("panic: %v", p)}
+	for _, depth := range []int{1024, 1025} {
+		caseDir, err := os.MkdirTemp(tmp, "c14d-")
+		if err != nil {
+			t.Fatal(err)
+		}
+		repo := filepath.Join(caseDir, "repo")
+		os.MkdirAll(repo, 0o755)
+		vfC14Git(t, repo, nil, nil, "init", "-q", "-b", "main", ".")
+		fn := filepath.Join(caseDir, "blob")
+		os.WriteFile(fn, []byte("deep content\n"), 0o644)
+		sha := strings.TrimSpace(vfC14Git(t, repo, []byte(fn+"\n"), nil, "hash-object", "-w", "--stdin-paths"))
+		deep := strings.Repeat("d/", depth) + "f.txt"
+		idx := filepath.Join(caseDir, "index-tmp")
+		env := []string{"GIT_INDEX_FILE=" + idx}
+		vfC14Git(t, repo, []byte(fmt.Sprintf("100644 %s\t%s\x00100644 %s\ttop.txt\x00", sha, deep, sha)), env, "update-index", "-z", "--index-info")
+		tree := strings.TrimSpace(vfC14Git(t, repo, nil, env, "write-tree"))
+		commit := strings.TrimSpace(vfC14Git(t, repo, []byte("c\n"), nil, "commit-tree", tree))
+		vfC14Git(t, repo, nil, nil, "update-ref", "refs/heads/main", commit)
+		indexDir := filepath.Join(caseDir, "idx")
+		os.MkdirAll(indexDir, 0o755)
+		t.Setenv("ZOEKT_DISABLE_CATFILE_BATCH", "true")
+		opts := Options{RepoDir: repo, Branches: []string{"main"}, BranchPrefix: "refs/heads",
+			BuildOptions: index.Options{IndexDir: indexDir, SizeMax: 1000, DisableCTags: true, RepositoryDescription: zoekt.Repository{Name: "repo"}}}
+		replay := map[string]any{"nested_directories": depth, "paths": []string{fmt.Sprintf("d/ x %d + f.txt", depth), "top.txt"},
+			"how": "one branch with the files top.txt and d/d/.../d/f.txt, built with update-index --index-info / write-tree / commit-tree; IndexGitRepo(Options{RepoDir, Branches: [main], BranchPrefix: refs/heads}) with ZOEKT_DISABLE_CATFILE_BATCH=true"}
+		type res struct {
+			err  error
+			docs []vfC14Doc
+		}
+		done := make(chan res, 1)
+		go func() {
+			defer func() {
+				if p := recover(); p != nil {
+					done <- res{err: fmt.Errorf("panic: %v", p)}
+				}
+			}()
+			_, err := IndexGitRepo(opts)
+			var docs []vfC14Doc
+			if err == nil {
+				docs, err = vfC14ReadShards(indexDir)
 			}
+			done <- res{err, docs}
 		}()
-		_, err := IndexGitRepo(opts)
-		var docs []vfC14Doc
-		if err == nil {
-			docs, err = vfC14ReadShards(indexDir)
-		}
-		done <- res{err, docs}
-	}()
-	wait := 10 * time.Second
-	if vfTier() == "thorough" {
-		wait = 40 * time.Second
-	}
-	select {
-	case r := <-done:
-		if r.err != nil && strings.HasPrefix(r.err.Error(), "panic") {
-			replay["message"] = r.err.Error()
-			vfOracleFail("git:deep-tree-panic", "IndexGitRepo panics on a deep tree", replay)
-		} else if r.err == nil {
-			names := map[string]bool{}
-			for _, d := range r.docs {
-				names[d.Name] = true
+		wait := 180 * time.Second // generous: only a hanging indexer ever waits this long, a loaded machine must not look like one
+		select {
+		case r := <-done:
+			switch {
+			case r.err != nil && strings.HasPrefix(r.err.Error(), "panic"):
+				replay["message"] = r.err.Error()
+				vfOracleFail("git:deep-tree-panic", "IndexGitRepo panics on a deep tree", replay)
+			case r.err != nil && depth <= 1024:
+				replay["message"] = r.err.Error()
+				vfOracleFail("git:deep-tree-refused-within-limit", "IndexGitRepo fails on a tree with 1024 nested directories (the documented limit)", replay)
+			case r.err == nil:
+				names := map[string]bool{}
+				for _, d := range r.docs {
+					names[d.Name] = true
+				}
+				if len(r.docs) != 2 || !names["top.txt"] || !names[deep] {
+					vfOracleFail("git:deep-tree-missing-document", "IndexGitRepo reports success on a deep tree but the documents are not the two files", replay)
+				}
 			}
-			if len(r.docs) != 2 || !names["top.txt"] || !names[deep] {
-				vfOracleFail("git:deep-tree-missing-document", "IndexGitRepo reports success on a deep tree but the documents are not the two files", replay)
-			}
+			os.RemoveAll(caseDir)
+		case <-time.After(wait):
+			replay["waited_seconds"] = int(wait / time.Second)
+			vfOracleFail("git:deep-tree-hang", "IndexGitRepo does not return on a tree with this many nested directories", replay)
+			return // the indexer goroutine keeps running: leave its files alone
 		}
-	case <-time.After(wait):
-		replay["waited_seconds"] = int(wait / time.Second)
-		vfOracleFail("git:deep-tree-hang", "IndexGitRepo does not return on a tree with 1025 nested directories", replay)
 	}
 }
 
